@@ -128,7 +128,8 @@ def _book_case(draw, tier):
     spec, combo = draw(solve.spec_and_combo(include_grad_free=False, all_levy=False))
     return {"kind": "bookkeeping", "spec": spec, "combo": combo, "entropy": draw(st.integers(0, 2 ** 31 - 2)),
             "mode": draw(st.sampled_from(["subset_params", "frozen_param", "y0_no_grad", "default_params",
-                                          "empty_params", "renamed_default_params", "nonleaf_param"]))}
+                                          "empty_params", "renamed_default_params", "nonleaf_param",
+                                          "duplicate_params"]))}
 
 
 @st.composite
@@ -217,6 +218,10 @@ def _run_book(case):
     elif mode == "empty_params":
         kw["adjoint_params"] = ()
         asked = set()
+    elif mode == "duplicate_params":
+        # a tensor listed twice (two parameter lists sharing a layer, concatenated): its gradient is still its gradient
+        names_ = sorted(params)
+        kw["adjoint_params"] = [params[k] for k in names_] + [params[k] for k in names_[::2]]
     run_sde = sde
     if mode == "renamed_default_params":
         # drift and diffusion exposed under other names (`names=`), adjoint_params left at its default: every parameter of
@@ -276,6 +281,22 @@ def _run_book(case):
             return Result(nontrivial=True, checks=checks, fail=Fail(
                 "bookkeeping:unrequested_gradient", f"parameter {name} was not asked for but received a gradient "
                                                     f"({mode})", sig))
+    if mode == "duplicate_params":
+        sde_u = sdes.build_generic(spec)
+        y0_u = sdes.y0_for(spec).requires_grad_(True)
+        bm_u = sdes.make_bm(torchsde, spec, 0.0, 0.5, case["entropy"], levy=combo["levy"])
+        ys_u = torchsde.sdeint_adjoint(sde_u, y0_u, ts, bm=bm_u, method=combo["method"], dt=0.125)
+        (ys_u ** 2).sum().backward()
+        for (name, p), (_, q) in zip(sde.named_parameters(), sde_u.named_parameters()):
+            checks += 1
+            gp = torch.zeros_like(p) if p.grad is None else p.grad
+            gq = torch.zeros_like(q) if q.grad is None else q.grad
+            if not torch.allclose(gp, gq, rtol=1e-9, atol=1e-12):
+                ratio = float(gp.abs().max()) / max(float(gq.abs().max()), 1e-300)
+                return Result(nontrivial=True, checks=checks, fail=Fail(
+                    "bookkeeping:duplicate_param_gradient",
+                    f"parameter {name} listed {'twice' if name in sorted(params)[::2] else 'once'} in adjoint_params received "
+                    f"{ratio:.3g} x the gradient it receives when every tensor is listed once", sig))
     if w_leaf is not None:
         checks += 1
         if w_leaf.grad is None or float(w_leaf.grad.abs().max()) == 0.0:
